@@ -262,6 +262,17 @@ impl World {
                     (format!("restart {}", e + 1), format!("OK g={}", self.store.global_epoch))
                 }
             }
+            ["push_snap"] if self.snapshot.is_some() => {
+                // the snapshot is pushed to the running broker (`PUT /metadata` -> `MetaStore::restore` on the live store):
+                // refused when the store is ahead of it, and a refused push must leave the store as it was
+                let before = render_store(&self.store);
+                let r = self.store.restore(self.snapshot.clone().expect("snapshot"));
+                let obs = match &r { Ok(()) => format!("OK g={}", self.store.global_epoch), Err(e) => format!("ERR {} g={}", code(e), self.store.global_epoch) };
+                if r.is_err() && render_store(&self.store) != before {
+                    self.fail("C13: a refused metadata push (MetaStore::restore answered an error) replaced the store".to_string(), "");
+                }
+                ("push_snap".to_string(), obs)
+            }
             _ => self.exec(&toks),
         };
         let kind = toks[0].to_string();
@@ -648,8 +659,8 @@ impl Gen {
                 92..=93 => { if !free.is_empty() { return format!("remove_proxy {}", rng.pick(&free)); } else if !proxies.is_empty() { return format!("remove_proxy {}", rng.pick(&proxies)); } }
                 94..=96 => { if !proxies.is_empty() { let a = if rng.chance(3, 4) && !free.is_empty() { rng.pick(&free).clone() } else { rng.pick(&proxies).clone() }; return format!("add_failure {} r{} 0", a, rng.below(3)); } }
                 97 => { return format!("bump_all {}", (store.global_epoch as i64 + rng.range(-2, 20)).max(0)); }
-                98 => { return match rng.below(3) { 0 => "snap".to_string(), 1 => "restart 0".to_string(), _ => format!("recover {}", (store.global_epoch as i64 + rng.range(-5, 50)).max(0)) }; }
-                _ => { if rng.chance(1, 3) { return "snap".to_string(); } if rng.chance(1, 2) { return "restart 0".to_string(); } if !clusters.is_empty() { return format!("scale_out_num {} {}", rng.pick(&clusters), 4 * rng.range(1, 6)); } }
+                98 => { return match rng.below(4) { 0 => "snap".to_string(), 1 => "restart 0".to_string(), 2 => "push_snap".to_string(), _ => format!("recover {}", (store.global_epoch as i64 + rng.range(-5, 50)).max(0)) }; }
+                _ => { if rng.chance(1, 3) { return "snap".to_string(); } if rng.chance(1, 4) { return "push_snap".to_string(); } if rng.chance(1, 2) { return "restart 0".to_string(); } if !clusters.is_empty() { return format!("scale_out_num {} {}", rng.pick(&clusters), 4 * rng.range(1, 6)); } }
             }
         }
         "add_proxy p0:1 n:1 n:2 h0".into()
